@@ -196,7 +196,9 @@ def run_case(case, ctx):
     def same(have, w, trunc=True):
         if exact:
             return lib.same("Q", have, w, exact=True, trunc=trunc)
-        return close2(lib.have_value(R, have), w, 1e-8, 1e-12)
+        # values of a grammar pass through CFG.agenda, whose fixed points are truncated at 1e-12 absolute per update
+        # (several updates may each lose that much); automaton values (trunc=False) do not
+        return close2(lib.have_value(R, have), w, 1e-8, 1e-11 if trunc else 1e-12)
 
     strings = list(GG.strings_upto(alpha, case["maxlen"]))
     try:
